@@ -100,7 +100,7 @@ class Source:
 
     # -- locate `impl ... {` blocks whose header matches a regex
     def impl_block(self, header_re):
-        for m in re.finditer(r'(?m)^(?:unsafe )?impl\b[^{;]*\{', self.masked):
+        for m in re.finditer(r'(?m)^(?:unsafe )?impl\b(?:[^{;\[]|\[[^\]]*\])*\{', self.masked):
             hdr = self.masked[m.start():m.end() - 1]
             if re.search(header_re, ' '.join(hdr.split())):
                 o = m.end() - 1
@@ -109,7 +109,7 @@ class Source:
 
     def impl_block_containing(self, header_re, fn_name):
         """the impl block (several may share one header) that defines fn_name"""
-        for m in re.finditer(r'(?m)^(?:unsafe )?impl\b[^{;]*\{', self.masked):
+        for m in re.finditer(r'(?m)^(?:unsafe )?impl\b(?:[^{;\[]|\[[^\]]*\])*\{', self.masked):
             hdr = self.masked[m.start():m.end() - 1]
             if re.search(header_re, ' '.join(hdr.split())):
                 o = m.end() - 1
@@ -693,6 +693,38 @@ class Rewriter:
         b = self.map_calls(b, r'\bself\.insert_bytes', lambda m_, a: None if (a and a[0] == 'hs') else 'self.insert_bytes(%s)' % ', '.join(['hs'] + a), 'R12:thread-heap')
         return b
 
+
+    # R27: boxed::Box -- cells, owners, destructor runs; thin trait impls forward to the inner value ---------------------------
+    def boxops_rules(self, b):
+        b = self.sub('R27:use-stmt', r'(?m)^\s*use crate::boxed::Box;\s*$', '', b)
+        b = self.sub('R27:type-annotation', r'let (\w+): \*mut \(?dyn Any(?: \+ Send)?\)? =', r'let \1 =', b)
+        b = self.sub('R27:type-annotation', r'let (\w+): Box<[^=]*> =', r'let \1 =', b)
+        b = self.sub('R2:ptr-cast', r'\s+as \*mut (?:\[T; N\]|T\b|str\b|dyn Any\b)', '', b)
+        b = self.sub('R27:raw-reborrow', r'&mut \*(?=[\w:])', '', b)
+        b = self.sub('R27:raw-reborrow', r'&\*(?=self\.0)', '', b)
+        last = lambda fn: (lambda m_, a: '%s(%s)' % (fn, ', '.join(a + ['st'])))     # the ghost store goes LAST: nested calls borrow it first
+        b = self.map_calls(b, r'(?<![\w:])Box', last('box_ctor'), 'R27:ctor')
+        b = self.map_calls(b, r'\bManuallyDrop::new', last('md_new'), 'R27:manually-drop')
+        b = self.map_calls(b, r'(?<![\w:])Box::from_raw', last('BoxM::from_raw'), 'R27:from_raw')
+        b = self.map_calls(b, r'(?<![\w:])Box::into_raw', last('BoxM::into_raw'), 'R27:into_raw')
+        b = self.map_calls(b, r'\bcore::ptr::read', last('cell_read'), 'R27:ptr-read')
+        b = self.map_calls(b, r'\bcore::ptr::drop_in_place', last('cell_drop_in_place'), 'R27:drop_in_place')
+        b = self.sub('R27:slice-parts', r'\bcore::ptr::slice_from_raw_parts_mut\(', 'raw_slice_parts(', b)
+        b = self.sub('R27:slice-parts', r'(?<![\w:])slice::from_raw_parts_mut\(', 'raw_from_parts(', b)
+        b = self.sub('R27:arena-alloc', r'\ba\.alloc\((\w+)\)', r'bump_alloc_val(\1, a, st)', b)
+        b = self.sub('R27:pin', r'\bPin::new_unchecked\(', 'pin_new_unchecked(', b)
+        b = self.method_to_fn(b, 'into', 'BoxM::pin_from', 'R27:into-pin')
+        b = self.sub('R27:any-is', r'\bself\.is::<T>\(\)', 'any_is_T(&self)', b)
+        b = self.sub('R27:forget', r'\bmem::forget\(self\)', 'vec_forget(self, st)', b)
+        b = self.sub('R27:vec-len', r'\bself\.len\b(?!\()', 'self.len', b)
+        # forwarding to the inner value
+        b = self.sub('R27:forward', r'\b(?:PartialEq|PartialOrd|Ord)::(\w+)\(&\*\*self, &\*\*other\)', r'inner_\1(self, other)', b)
+        b = self.sub('R27:forward', r'\(\*\*self\)\.finish\(\)', 'inner_finish(self, st)', b)
+        b = self.sub('R27:forward', r'\(\*\*self\)\.len\(\)', 'inner_len(self)', b)
+        b = self.sub('R27:forward', r'\(\*\*self\)\.(write_\w+)\(([^()]*)\)', r'inner_\1(self, \2, st)', b)
+        b = self.sub('R27:box-deref', r'&(?:mut )?\*\*?([a-z]\w*)\b(?![.(])', r'\1.0', b)
+        return b
+
     # R20: RawVec growth -- the arena seen through its Alloc interface as a ghost "buffer owned" state -----------------
     def rawvecgrow_rules(self, b):
         b = self.sub('R20:use-stmt', r'(?m)^\s*use crate::AllocErr;\s*$', '', b)
@@ -846,6 +878,8 @@ class Rewriter:
             b = self.map_calls(b, r'(?<![\w.:])slice::from_raw_parts', lambda m_, a: 'raw_slice(w, Ghost(blk__), %s)' % ', '.join(a), 'R24:from_raw_parts')
         if kind == 'rawvecgrow':
             b = self.rawvecgrow_rules(b)
+        if kind == 'boxops':
+            return self.boxops_rules(b)
         if kind == 'strops':
             b = self.strops_rules(b)
         if kind in ('vecops', 'strops'):
